@@ -957,7 +957,11 @@ class _ClassBuilder:
             elif isinstance(item, property):
                 # Workaround for property `super()` shortcut (PY3-only).
                 # There is no universal way for other descriptors.
-                closure_cells = getattr(item.fget, "__closure__", None)
+                closure_cells = tuple(
+                    cell
+                    for func in (item.fget, item.fset, item.fdel)
+                    for cell in getattr(func, "__closure__", None) or ()
+                )
             else:
                 closure_cells = getattr(item, "__closure__", None)
 
